@@ -81,7 +81,7 @@ OPTION_SETS = [
     ["-C", "power_ts4", "coll_bw", "rcu_util"], ["--flow"], ["-M"], ["--comm_summarize_seq"], ["-t"],
     ["--disable_tb"], ["--power-stats"], ["-c", "$COMPLOG"], ["--event_filter", "name:hostop_a,args.usr_note:^h0$"],
     ["--event_limit", "$WINDOW"], ["--drop_globals", "--keep_prep", "--flow"], ["-k"], ["--time_unit", "ms"],
-    ["-C", "power_ts3", "prep_queue"], ["-C"], ["-O", "drop", "--keep_prep"],
+    ["-C", "power_ts3", "prep_queue"], ["-C"], ["-O", "drop", "--keep_prep"], ["-O", "shift"], ["-O", "warn"],
 ]
 
 
